@@ -304,15 +304,13 @@ fn cell_call(idx: u64, rec: &mut Rec) {
             match (fr, b) {
                 (Framing::NoBody, None) => {}
                 (Framing::NoBody, Some(_)) => rec.fail(&format!("C06/call-body-for-bodyless/{}", rule), format!("{}: into_body() gave a body reader, rule {} says no body", desc(), rule)),
+                // a body of length zero is not a body to read: the single-call API, like the flow, skips the body state
+                (Framing::Length(0), None) => rec.cov("call/zero-length-skips-body-state"),
+                (Framing::Length(0), Some(_)) => rec.fail(&format!("C06/call-body-state-for-empty-body/{}", rule), format!("{}: into_body() gave a body state although the body has length zero (rule {})", desc(), rule)),
                 (_, None) => rec.fail(&format!("C06/call-no-body/{}", rule), format!("{}: into_body() = None, rule {} says {:?}", desc(), rule, fr)),
                 (Framing::Close, Some(b)) => {
                     if !b.is_close_delimited() {
                         rec.fail("C06/call-mode", format!("{}: expected close-delimited", desc()));
-                    }
-                }
-                (Framing::Length(0), Some(b)) => {
-                    if !b.is_ended() || b.is_close_delimited() {
-                        rec.fail("C06/call-mode", format!("{}: expected an already complete zero length body", desc()));
                     }
                 }
                 (_, Some(b)) => {
